@@ -80,6 +80,10 @@ CLAIMED = {
             'exploration: held on ~6x10^3 interleaved calls per quick run over 120 single-feature worlds of every feature type offering a random model (1-200 grains, deflected and plain distributions, both coordinate systems)',
             'statistical uniformity is not a property and not tested; seeds congruent modulo 2^32 are the same mt19937 seed and are not required to differ',
             'DESIGN.md section 4, C15'),
+    'C13': ('runtime monitoring with sanitizers: generated and corpus worlds queried on the ASan+UBSan(+float-cast-overflow) build at a catalogue of degenerate locations derived from each world\'s truth record; every returned value checked for finiteness, crashes/aborts/hangs routed through the crash matcher',
+            'exploration: held on ~2.7x10^4 queries per quick run (~2.3x10^4 on a degenerate locus: vertices, edges, depth bounds and their floating point neighbours, trench line, slab tip, poles, date line with both zero signs, planet centre, surface at/below min depth); thorough adds magnitudes up to 1e12',
+            'a finite sample of a continuum targeted at the loci the code special-cases; a reproducible watchdog firing is the only notion of non-termination',
+            'DESIGN.md section 4, C13'),
 }
 
 PENDING_REASON = 'check not built yet (work in progress; see DESIGN.md section 9)'
